@@ -48,6 +48,7 @@ def reads(field):
 
 
 def run(R):
+    farthest_refresh_rule(R)
     F = R.F
     store_rules(R, "C10")
     # (2) eviction decision
@@ -312,3 +313,23 @@ class _ConstCmp:
                 tr.seed_bool(c["d"], False)
         tr.run()
         return n, tr.accept, tr.reject
+
+
+def farthest_refresh_rule(R):
+    """remove(k): when k is the recorded farthest record, the farthest record is recomputed before returning — eviction decisions and
+    the fetcher's bound are taken against `farthest_record`, so a stale one lets a farther record in / evicts nothing."""
+    from rules import PL
+    rm = R.body("C10.remove.farthest", REMOVE)
+    if rm is None:
+        return
+    prep(rm)
+    far = lambda b: Taint(b, through="all").closure({d for d, r, p in field_reads(b, "farthest_record")})
+    key = lambda b: Taint(b).closure(PL(b, 1))
+    is_far = CmpGuard(far, key, "Eq", "the removed key is the recorded farthest record", through="all", close=False)
+    n, acc, rej = is_far.edges(rm)
+    if not acc:
+        R.viol("C10.remove.farthest", "guard-missing", "remove() does not test whether the removed key is the recorded farthest record", rm, rm.lines[0])
+        R.inst("C10.remove.farthest", "K5 must-follow", "removing the farthest record recomputes farthest_record", 0, False)
+        return
+    R.must_pass("C10.remove.farthest", rm, [("farthest_record = calculate_farthest()", CallSink(NRS + "::calculate_farthest"))], from_blocks=tuple(d for _, d in acc),
+                descr="removing the farthest record recomputes farthest_record")
